@@ -234,8 +234,8 @@ def load_known(prop_id):
 # written by harness/py2lean.py on every run) belong to which property, and which source files they render.
 SRC_TIE = {
     'C01': ['Codec', 'Msg'], 'C02': ['Codec', 'Msg', 'MsgDecision'], 'C03': ['Codec'],
-    'C04': ['Tok', 'Parser', 'ParserSession'], 'C05': ['Tok', 'Parser', 'ParserSession'], 'C06': ['Tok', 'Parser', 'ParserSession'], 'C18': ['Tok'], 'C19': ['Tok', 'Parser', 'Syx'],
-    'C07': ['Vlq', 'VlqRead', 'Tracks', 'Writer', 'Reader', 'FileRoundTrip'], 'C08': ['Vlq', 'VlqRead', 'Writer', 'Reader', 'FileConformance'], 'C09': ['Meta', 'Vlq', 'MetaFrame', 'MetaRoundTrip'], 'C10': ['Ports'], 'C11': ['Ports', 'PortsLifecycle'],
+    'C04': ['Tok', 'Parser', 'ParserSession'], 'C05': ['Tok', 'Parser', 'ParserSession'], 'C06': ['Tok', 'Parser', 'ParserSession'], 'C18': ['Tok', 'Sockets'], 'C19': ['Tok', 'Parser', 'Syx'],
+    'C07': ['Vlq', 'VlqRead', 'Tracks', 'Writer', 'Reader', 'FileRoundTrip'], 'C08': ['Vlq', 'VlqRead', 'Writer', 'Reader', 'FileConformance'], 'C09': ['Meta', 'Vlq', 'MetaFrame', 'MetaRoundTrip'], 'C10': ['Ports', 'PortsIter'], 'C11': ['Ports', 'PortsIter', 'PortsLifecycle'],
     'C12': ['Tracks', 'TracksMerge'], 'C17': ['Charset'], 'C16': ['Tracks'],
 }
 SRC_TIE_FILES = {
@@ -243,11 +243,13 @@ SRC_TIE_FILES = {
     'Parser': ['mido/parser.py', 'mido/tokenizer.py'],
     'MetaFrame': ['mido/midifiles/meta.py'],
     'Ports': ['mido/ports.py'],
+    'Sockets': ['mido/sockets.py'],
     'Syx': ['mido/syx.py', 'mido/parser.py', 'mido/tokenizer.py'],
     'Charset': ['mido/midifiles/meta.py'],
     'TracksMerge': ['mido/midifiles/tracks.py'],
     'FileConformance': ['mido/midifiles/midifiles.py', 'mido/midifiles/tracks.py', 'mido/midifiles/meta.py'],
     'PortsLifecycle': ['mido/ports.py'],
+    'PortsIter': ['mido/ports.py'],
     'MsgDecision': ['mido/messages/decode.py', 'mido/messages/encode.py', 'mido/messages/specs.py'],
     'MetaRoundTrip': ['mido/midifiles/meta.py'],
     'ParserSession': ['mido/parser.py', 'mido/tokenizer.py'],
@@ -448,6 +450,8 @@ class Check:
             except ValueError:
                 w = 'err ValueError'
             reqs.append('pyop fromhex ' + codes); want.append(w.rstrip())
+        for txt in ('localhost:8080', 'a:b:c', '', ':', '::', 'nocolon', ':9', 'h:', 'x:y:', '\xe9:1'):
+            reqs.append('pyop split 58 ' + ' '.join(str(ord(c)) for c in txt)); want.append(' | '.join(' '.join(str(ord(c)) for c in part) for part in txt.split(':')))
         for n in (-2, 0, 1, 5):
             reqs.append(f'pyop range {n}'); want.append(' '.join(map(str, range(n))))
         # dicts: insertion order, d[k] = v on an existing key keeps its place, update(), {k: v for ...} with repeated keys
